@@ -28,7 +28,11 @@ RULE = (
     "flags); (b) a torrentfile.ini with a [config] section (key order permuted, ' = ' / '=' / ': ' delimiters, key case "
     "variants, list values one per indented line or inline, true/True/TRUE) found through --config in the working directory, "
     "--config-path, ~/.torrentfile/ and ~/.config/.torrentfile/, with only the content path (and sometimes the undocumented "
-    "--prog 0) on the command line; (c) TorrentFile / TorrentFileV2 / TorrentFileHybrid / TorrentAssembler(**kwargs).write() with "
+    "--prog 0) on the command line; also 2 or 3 of the search locations holding a torrentfile.ini at once (cwd + ~/.torrentfile, cwd + "
+    "~/.config/.torrentfile, cwd + both, ~/.torrentfile + ~/.config/.torrentfile, and --config-path while other files exist), the "
+    "lower-priority files holding a record that differs in every documented key plus extra keys: the result must be the one of the "
+    "documented first match (cwd, ~/.torrentfile, ~/.config) resp. of the explicit path, and commands.find_config_file itself is called "
+    "on all 8 presence combinations x {no, existing, missing --config-path}; (c) TorrentFile / TorrentFileV2 / TorrentFileHybrid / TorrentAssembler(**kwargs).write() with "
     "path= or content=, meta_version as str, int or omitted (class-specific creators), piece_length as str or int, announce as "
     "list or (single URL) str.  Each result is decoded with the reference oracle's strict bencode decoder, 'creation date' (and "
     "nothing else) is dropped, and the check requires (1) every route byte-identical to the majority result, (2) every option "
@@ -198,6 +202,7 @@ AIMED = [
     ({"meta-version"}, {"meta-version": "3"}),                                              # D21 class
     ({"meta-version", "align", "piece-length"}, {"meta-version": "3", "piece-length": "32768"}),
     ({"meta-version", "align"}, {"meta-version": "2"}),
+    ({"meta-version"}, {"meta-version": "1"}), ({"meta-version", "comment"}, {"meta-version": "1", "comment": "explicit default"}),
     ({"align", "piece-length"}, {"piece-length": "16384", "payload": "tree"}),
     ({"announce", "web-seed", "http-seed"}, {"announce": [A_POOL[2], A_POOL[6], A_POOL[1]], "payload": "single"}),
 ]
@@ -249,6 +254,8 @@ def out_value(o, w):
         return os.path.join(w, "out") + "/", os.path.join("out", name)
     if kind == "rel":
         return "rel.torrent", os.path.join("cwd", "rel.torrent")
+    if kind == "decoyfile":
+        return os.path.join(w, "out", "decoy.torrent"), os.path.join("out", "decoy.torrent")
     return None, os.path.join("cwd", name)
 
 
@@ -320,7 +327,41 @@ def ini_text(o, r, w):
         else:
             v = out_value(o, w)[0] if opt == "out" else o[opt]
             lines.append(key(opt) + delim + v.replace("\n", "\n    "))
+    lines += list(o.get("extra_lines", []))
     return "\n".join(lines) + "\n"
+
+
+INI_LOCATIONS = ["cwd", "home-torrentfile", "home-config"]      # documented priority, first match wins
+
+
+def ini_path(loc, w):
+    if loc == "cwd":
+        return os.path.join(w, "cwd", "torrentfile.ini")
+    if loc == "config-path":
+        return os.path.join(w, "conf dir", "my.ini")
+    if loc == "home-torrentfile":
+        return os.path.join(w, "home", ".torrentfile", "torrentfile.ini")
+    return os.path.join(w, "home", ".config", ".torrentfile", "torrentfile.ini")
+
+
+def decoy_of(o, k):
+    """a record that differs from o in every documented key it sets; stored in a LOWER-priority configuration file"""
+    ver = o.get("meta-version", "1")
+    d = {"announce": [f"http://decoy{k}.example/announce", "http://decoy.example/second"], "comment": f"decoy {k}",
+         "source": "DECOY", "out": "decoyfile", "meta-version": {"1": "2", "2": "3", "3": "1"}[ver],
+         "web-seed": ["http://decoy.example/w"], "http-seed": ["http://decoy.example/h"],
+         "piece-length": "18" if o.get("piece-length") == "17" else "17",
+         "extra_lines": ["cwd = true", f"foo = bar{k}"]}
+    if not o.get("private"):
+        d["private"] = True
+    if not o.get("align"):
+        d["align"] = True
+    return d
+
+
+PRIORITY_COMBOS = [("cwd", ["home-torrentfile"]), ("cwd", ["home-config"]), ("cwd", ["home-torrentfile", "home-config"]),
+                   ("home-torrentfile", ["home-config"]), ("config-path", ["cwd", "home-torrentfile", "home-config"]),
+                   ("config-path", ["home-config"]), ("config-path", ["cwd"])]
 
 
 def kw_spec(o, r, w, content):
@@ -364,6 +405,8 @@ def kw_spec(o, r, w, content):
 def route_class(r, info=None):
     if r["route"] == "cli":
         return "cli-swallowed" if info and info.get("swallowed_by") else "cli"
+    if r["route"] == "config" and r.get("decoys"):
+        return "config-priority"
     return r["route"]
 
 
@@ -431,6 +474,13 @@ def routes_for(ctx, o, idx):
                    "argv_shape": ["content-last", "content-first", "content-middle"][(idx + j) % 3],
                    "extra": ["--prog", "0"] if (idx + j) % 4 == 3 else None, "sub": ["create", "new"][(idx + j) % 2],
                    "false_first": j == 1})
+    # several configuration files at once: the highest-priority existing one (or the explicit --config-path) must win
+    combos = PRIORITY_COMBOS if thorough else [PRIORITY_COMBOS[idx % 5]] + ([PRIORITY_COMBOS[5 + idx % 2]] if idx % 4 == 0 else [])
+    for j, (f, lower) in enumerate(combos):
+        rs.append({"route": "config", "find": f, "order": perm(), "delim": [" = ", "=", ": "][(idx + j) % 3],
+                   "keycase": "lower", "truth": "true", "inline_single": (idx + j) % 2 == 1,
+                   "argv_shape": ["content-last", "content-first"][(idx + j) % 2], "sub": "create",
+                   "decoys": {loc: decoy_of(o, n + 1) for n, loc in enumerate(lower)}})
     # (c) keywords
     ver = o.get("meta-version", "1")
     rs.append({"route": "keyword", "cls": "auto", "pathkw": "path", "mv": "str", "pl": "str", "announce_as": "list"})
@@ -462,18 +512,21 @@ def run_route(root, tag, o, r):
     elif r["route"] == "config":
         text = ini_text(o, r, w)
         f = r.get("find", "cwd")
-        if f == "cwd":
-            ini = os.path.join(cwd, "torrentfile.ini")
-        elif f == "config-path":
-            ini = os.path.join(w, "conf dir", "my.ini")
-        elif f == "home-torrentfile":
-            ini = os.path.join(home, ".torrentfile", "torrentfile.ini")
-        else:
-            ini = os.path.join(home, ".config", ".torrentfile", "torrentfile.ini")
+        ini = ini_path(f, w)
         os.makedirs(os.path.dirname(ini), exist_ok=True)
         with open(ini, "w", encoding="utf-8") as fd:
             fd.write(text)
         mine.add(os.path.relpath(ini, w))
+        decoy_texts = {}
+        for loc, drec in (r.get("decoys") or {}).items():
+            dp = ini_path(loc, w)
+            if dp == ini:
+                continue
+            os.makedirs(os.path.dirname(dp), exist_ok=True)
+            decoy_texts[loc] = ini_text(drec, {"delim": r.get("delim", " = ")}, w)
+            with open(dp, "w", encoding="utf-8") as fd:
+                fd.write(decoy_texts[loc])
+            mine.add(os.path.relpath(dp, w))
         flags = ["--config"] + (["--config-path", ini] if f == "config-path" else [])
         extra = list(r.get("extra") or [])
         shape = r.get("argv_shape", "content-last")
@@ -486,6 +539,8 @@ def run_route(root, tag, o, r):
         argv = [r.get("sub", "create")] + toks
         cmd = [core.PY, "-m", "torrentfile"] + argv
         info = {"ini": text}
+        if decoy_texts:
+            info["lower_priority_ini"] = decoy_texts
     else:
         spec = kw_spec(o, r, w, content)
         argv = spec
@@ -726,6 +781,14 @@ def case_classes(o, r, res):
         cl.append("route ini")
         cl.append({"cwd": "ini found in cwd", "config-path": "ini via --config-path", "home-torrentfile": "ini in ~/.torrentfile",
                    "home-config": "ini in ~/.config/.torrentfile"}[r.get("find", "cwd")])
+        if r.get("decoys"):
+            locs = sorted(r["decoys"])
+            if r.get("find") == "config-path":
+                cl.append("--config-path while other ini files exist")
+            else:
+                cl.append("ini priority: " + r["find"] + " over " + " + ".join(locs))
+        if o.get("meta-version") == "1":
+            cl.append("ini writes the default meta-version = 1 explicitly")
         if "web-seed" in o:
             cl.append("D17 class: web-seed via ini")
         if "out" in o:
@@ -766,7 +829,11 @@ REQUIRED = (
        "sub-command create", "sub-command new", "sub-command <implicit>", "short flag spelling", "alias --tracker",
        "abbreviated long flag", "--flag=value spelling", "boolean spelled false", "single-file payload",
        "D17 class: web-seed via ini", "D18 class: out via ini", "D19 class: % via ini", "D20 class: true/false text via ini",
-       "D21 class: meta_version=3 int keyword"])
+       "D21 class: meta_version=3 int keyword",
+       "ini priority: cwd over home-torrentfile", "ini priority: cwd over home-config",
+       "ini priority: cwd over home-config + home-torrentfile", "ini priority: home-torrentfile over home-config",
+       "--config-path while other ini files exist", "ini writes the default meta-version = 1 explicitly",
+       "find_config_file: presence combination"])
 
 
 def require_classes(ctx, required, minimum=2):
@@ -866,6 +933,9 @@ def end_to_end(ctx):
                 ini = next((x["info"].get("ini") for x, rr in zip(ress, routes) if rr is r and x["info"].get("ini")), None)
                 if ini:
                     inp["ini"] = ini
+                low = next((x["info"].get("lower_priority_ini") for x, rr in zip(ress, routes) if rr is r), None)
+                if low:
+                    inp["lower_priority_ini"] = low
                 if kind not in seen_kinds and len(seen_kinds) < 6:
                     seen_kinds[kind] = True
                     try:
@@ -1485,8 +1555,67 @@ TIE_REQUIRED = ["tie: generated argument record vs parser._actions", "tie argv: 
                 "tie init: path recovered from httpseeds", "tie init: a URL names an existing file"]
 
 
+def find_config_tie(ctx):
+    """the real commands.find_config_file over all 8 presence combinations of the three documented locations (and with an
+       explicit --config-path) against the documented first-match order"""
+    from argparse import Namespace
+    core.use_repo_in_process()
+    from torrentfile import commands
+    cwd0, home0 = os.getcwd(), os.environ.get("HOME")
+    with core.Scratch("vc20f_") as tmp:
+        try:
+            n = 0
+            for mask in range(8):
+                for explicit in (None, "exists", "missing"):
+                    n += 1
+                    w = os.path.join(tmp, f"f{n}")
+                    os.makedirs(os.path.join(w, "cwd"))
+                    os.makedirs(os.path.join(w, "home"))
+                    present = [loc for i, loc in enumerate(INI_LOCATIONS) if mask >> i & 1]
+                    for loc in present:
+                        os.makedirs(os.path.dirname(ini_path(loc, w)), exist_ok=True)
+                        with open(ini_path(loc, w), "w") as fd:
+                            fd.write("[config]\ncomment = " + loc + "\n")
+                    cp = None
+                    if explicit:
+                        cp = ini_path("config-path", w)
+                        if explicit == "exists":
+                            os.makedirs(os.path.dirname(cp))
+                            with open(cp, "w") as fd:
+                                fd.write("[config]\ncomment = explicit\n")
+                    os.chdir(os.path.join(w, "cwd"))
+                    os.environ["HOME"] = os.path.join(w, "home")
+                    if explicit == "exists":
+                        want = cp
+                    elif explicit == "missing" or not present:
+                        want = "FileNotFoundError"
+                    else:
+                        want = ini_path(present[0], w)
+                    try:
+                        got = str(commands.find_config_file(Namespace(config=True, config_path=cp)))
+                        got = os.path.abspath(got)
+                    except FileNotFoundError:
+                        got = "FileNotFoundError"
+                    except Exception as e:  # noqa
+                        got = type(e).__name__
+                    if got != want:
+                        ctx.fail("config-priority:find_config_file",
+                                 {"files present (documented priority order)": present, "config_path": explicit,
+                                  "call": "commands.find_config_file(Namespace(config=True, config_path=%s))" % ("<path>" if cp else None)},
+                                 os.path.relpath(want, w) if want.startswith(w) else want,
+                                 os.path.relpath(got, w) if got.startswith(w) else got)
+                    ctx.case(key=("find_config_file", mask, explicit), classes=["find_config_file: presence combination"])
+        finally:
+            os.chdir(cwd0)
+            if home0 is None:
+                os.environ.pop("HOME", None)
+            else:
+                os.environ["HOME"] = home0
+
+
 def run(ctx, model_ok):
     os.environ["HOME"] = "/nonexistent-home"
+    find_config_tie(ctx)
     tie(ctx, model_ok)
     end_to_end(ctx)
 
@@ -1509,6 +1638,8 @@ def replay(ctx, data):
             print("  argv:", json.dumps(res["argv"], ensure_ascii=False)[:1500])
             if res["info"].get("ini"):
                 print("  ini:\n    " + res["info"]["ini"].replace("\n", "\n    "))
+            for loc, t in (res["info"].get("lower_priority_ini") or {}).items():
+                print(f"  lower-priority ini ({loc}):\n    " + t.replace("\n", "\n    "))
             print("  exit status", res["rc"], "new files", sorted(res["files"]), "expected", res["expected_rel"])
             if res["rc"] != 0:
                 print("  stderr:", res["err"][-300:])
